@@ -25,6 +25,9 @@ fn main() {
                 "C03" => suites::c03::gen(tier, seed, &mut emit),
                 "C04" => suites::c04::gen(tier, seed, &mut emit),
                 "C08" => suites::c08::gen(tier, seed, &mut emit),
+                "C06" => suites::c06::gen(tier, seed, &mut emit),
+                "C18" => suites::c06::gen_c18(tier, seed, &mut emit),
+                "C07" => suites::c07::gen(tier, seed, &mut emit),
                 "C16" => suites::c16::gen(tier, seed, &mut emit),
                 "C17" => suites::c17::gen(tier, seed, &mut emit),
                 "SMOKE" => suites::streams::gen_smoke(tier, seed, &mut emit),
